@@ -115,7 +115,7 @@ def run(ctx):
     rng = ctx.rng
     pts = stall_points()
     ctx.counters["stall-points-enumerated"] = len(pts)
-    for i in range(ctx.pick(450, 9000)):
+    for i in range(ctx.pick(450, 40000)):
         if ctx.time_left() < 5:
             ctx.unsure("time budget exhausted")
             break
